@@ -29,7 +29,7 @@ ASSUMPTIONS = ["clusters are never locked (the statement's exception)",
                "a held clone is queried only while the function it was cloned from is still the current binding"]
 COMPONENTS = {"real": ["twosigma.memento version computation, hash rules, generation counter, version cache", "CPython exec/compile/linecache"],
               "stub": ["generated user program", "uuid4, clock"]}
-REACH = ["programs_with_declared_dependencies", "programs_with_mutual_recursion", "events:define_builtin", "queries", "query_points", "via:unregistered", "via:clone", "via:held-clone", "events:redefine", "events:mutate",
+REACH = ["events:rebind_to_unencodable_value", "programs_with_declared_dependencies", "programs_with_mutual_recursion", "events:define_builtin", "queries", "query_points", "via:unregistered", "via:clone", "via:held-clone", "events:redefine", "events:mutate",
          "events:rebind", "events:swap_kind", "queried_with_undefined_callee"]
 
 QVIAS = ["attr", "attr", "qn", "clone:ignore_result", "clone:force_local", "clone:partial", "clone:context", "unregistered"]
@@ -143,6 +143,22 @@ def gen_case(seed):
                 callers = [n for n in cur["nodes"] if n["kind"] == "memento" and any(c["to"] == j for c in n["calls"])]
                 events.append({"op": "query", "nodes": [[n["id"], rng.choice(["attr", "qn"])] for n in callers], "prog": copy.deepcopy(cur),
                                "defined": sorted(n["id"] for n in cur["nodes"] if ("n", n["id"]) in defined)})
+    if rng.random() < 0.3:
+        # a tracked list / dict variable is re-bound to a value of the same type that the codec cannot encode (a set inside
+        # the list, a tuple as dictionary key): from then on the library does not track it - exactly what a fresh process
+        # does with such a variable.  Last event of the history (nothing is called in C13, only versions are asked).
+        cands = [g for g in cur["globals"] if g["kind"] in ("list", "dict") and not g.get("src")
+                 and any(nd["kind"] == "memento" and not nd.get("noauto") for nd in cur["nodes"] if g["id"] in nd["globals"])]
+        if cands:
+            g = cands[rng.randrange(len(cands))]
+            users = [nd for nd in cur["nodes"] if g["id"] in nd["globals"] and nd["kind"] == "memento"]
+            events.append({"op": "query", "nodes": [[n["id"], rng.choice(["attr", "qn"])] for n in users], "prog": copy.deepcopy(cur),
+                           "defined": sorted(n["id"] for n in cur["nodes"] if ("n", n["id"]) in defined)})
+            src = "[%d, {%d}]" % (counter, counter) if g["kind"] == "list" else "{(1, 2): %d}" % counter
+            events.append({"op": "cell", "module": g["module"], "text": "%s = %s\n" % (g["name"], src), "unit": ["g", g["id"]],
+                           "kind": "rebind-unencodable"})
+            events.append({"op": "query", "nodes": [[n["id"], rng.choice(["attr", "qn"])] for n in users], "prog": copy.deepcopy(cur),
+                           "defined": sorted(n["id"] for n in cur["nodes"] if ("n", n["id"]) in defined)})
     names = [n for n in cur["nodes"] if n["kind"] == "memento"]
     events.append({"op": "query", "nodes": [[n["id"], "attr"] for n in names], "prog": copy.deepcopy(cur),
                    "defined": sorted(n["id"] for n in cur["nodes"])})
@@ -334,6 +350,8 @@ def execute(case):
             if ev["op"] == "cell" and ev.get("kind"):
                 redefined = True
                 bump("events:redefine")
+                if ev["kind"] == "rebind-unencodable":
+                    bump("events:rebind_to_unencodable_value")
                 if ev["kind"] == "swap_kind":
                     bump("events:swap_kind")
                 if ev["kind"] == "define_builtin":
